@@ -90,21 +90,21 @@ pub fn bounds_for(tier: Tier, mode: Mode) -> Bounds {
         Tier::Thorough => Bounds {
             workers: 16,
             watchdog_s: 20.0,
-            horizon: 100_000,
+            horizon: 50_000,
             max_depth: 12,
             k1_pos_cap: 16 * 1024,
             k1_seed_cap: usize::MAX,
-            k2_len: 160,
+            k2_len: 128,
             k2_seeds_per_type: 2,
             zero_len: 160,
             purity_every_case: true,
-            deadline_s: 1500.0,
+            deadline_s: 1700.0,
             chunk: 256,
         },
     };
     if mode == Mode::C20 {
         // the strict profile is 2-3x slower: halve the quick position cap
-        b.deadline_s = tier.pick(45.0, 1500.0);
+        b.deadline_s = tier.pick(45.0, 1700.0);
         b.k1_pos_cap = tier.pick(1024, b.k1_pos_cap);
     }
     if let Some(v) = env("VERIF_THREADS") {
@@ -1236,6 +1236,9 @@ pub fn engine_body(run: &Run, replay: Option<&Value>, cfg: &EngineConfig) {
                 return;
             }
         }
+        // vcore::Run::violation writes replays/<id>/<n>.json even in replay mode, which would overwrite
+        // the recorded files of the last sweep: divert those writes into the scratch directory
+        std::env::set_var("VERIF_ROOT", &dir);
         let cmd = format!("X\t{}\t{}\t{}", si, base_len, dev.to_json());
         let t = supervise(&plan, tier, &b, Some(vec![cmd]), run);
         if let Some(m) = &t.machinery {
